@@ -193,3 +193,32 @@ Proof.
     apply (wf_first_x l _ _ _ _ _ exts pt); auto; rewrite ?Lp; try lia. now apply chain_readable_answer.
 Qed.
 End XW.
+
+(* ---------- the peek function on extension packets (C19) ---------- *)
+Require Import GSE.proofs.Peek.
+Theorem peek_start_ext crc S pdu fid pt lab buf exts S' buf' st tail : enc_wf S -> label_wf lab -> Forall ext_built exts ->
+  encap_ext crc S pdu fid pt lab buf exts = Ret (S', buf', inl st) ->
+  peek (takeN (match st with Completed n | Fragmented n _ => n end) buf' ++ tail)
+  = Ret (peek_label (snd (check_reuse_hl S lab))).
+Proof.
+  intros HS Hw Hb He.
+  assert (Hxw : Forall ext_wf exts) by (revert Hb; apply Forall_impl; exact ext_built_wf).
+  rewrite encap_ext_spec in He by assumption. injection He as He.
+  destruct st as [n|n c].
+  - destruct (encap_ext_completed crc _ _ _ _ _ _ _ _ _ _ Hw He) as (_ & _ & _ & Hb' & Hn & Hnb & Hg).
+    destruct (check_reuse_hl S lab) as [s1 l] eqn:Hc. cbn [fst snd] in *.
+    pose proof (check_reuse_label_wf _ _ _ _ Hw Hc) as Hwl.
+    rewrite Hb', takeN_app_eq by (rewrite (lenN_pkt_complete_x crc); lia).
+    with_strategy transparent [pkt_complete_x] unfold pkt_complete_x. rewrite <- !app_assoc.
+    apply (peek_start KComplete l [] (first_id exts pt) (chain_bytes exts (pt <? 256) pt ++ pdu ++ tail)); auto; lia.
+  - destruct (encap_ext_fragmented crc _ _ _ _ _ _ _ _ _ _ _ Hw He) as (_ & _ & _ & Hb' & _ & Hn & Hnb & Hlt & Htl & Hg).
+    destruct (check_reuse_hl S lab) as [s1 l] eqn:Hc. cbn [fst snd] in *.
+    pose proof (check_reuse_label_wf _ _ _ _ Hw Hc) as Hwl.
+    assert (Lt : lenN (takeN (cf_len c) pdu) = cf_len c) by (rewrite lenN_takeN; lia).
+    rewrite Hb', takeN_app_eq by (rewrite (lenN_pkt_first_x crc), Lt; lia).
+    with_strategy transparent [pkt_first_x] unfold pkt_first_x. rewrite <- !app_assoc.
+    set (tl := lenN pdu + 2 + lenN (label_bytes l)).
+    change ([fid] ++ be16 tl ++ be16 (first_id exts pt) ++ label_bytes l ++ chain_bytes exts (pt <? 256) pt ++ takeN (cf_len c) pdu ++ tail)
+      with (([fid] ++ be16 tl) ++ be16 (first_id exts pt) ++ label_bytes l ++ chain_bytes exts (pt <? 256) pt ++ takeN (cf_len c) pdu ++ tail).
+    apply (peek_start KFirst l ([fid] ++ be16 tl) (first_id exts pt)); auto. rewrite Lt. lia.
+Qed.
